@@ -12,7 +12,7 @@ LEVEL_TEXT = ("static: decides only the shape-of-code clauses: every *_first/*_l
 LEVEL_NOTE = "trusts clang CFG + extractor; conformance to the ADT model needs model-based execution and is outside this family"
 DESIGN_REF = "DESIGN.md §6/C19"
 EXPLANATION = LEVEL_TEXT
-NOT_DECIDED = "order preservation, sortedness, index arithmetic (e.g. the 'emptied from the front' array case), hash-table lookups across growth: need a reference-model search"
+NOT_DECIDED = "order preservation, sortedness, general index arithmetic, hash-table lookups across growth: need a reference-model search"
 
 DSA = lambda f: f.file.startswith("src/lib/dsa/")
 
@@ -196,11 +196,111 @@ def r_reclaim(prog, R):
         r.viol("rollback restores offset", rb.name, rb.loc(rb.ln), "ares_buf_tag_rollback no longer restores the read offset to the tag")
 
 
+def r_links(prog, R):
+    r = R.rule("R-C19-LINKS", "a node linked into the doubly linked list is linked from both neighbours in every insertion mode", floor=3, analysis="symmetric-store check per switch arm")
+    f = prog.func("ares_llist_attach_at")
+    node = f.params[3]["n"]
+    arms = []
+    for b in f.blocks.values():
+        if b.term and b.term.get("cls") == "SwitchStmt":
+            for succ, vals in f.switch_cases(b):
+                if isinstance(vals, list):
+                    arms.append((", ".join(v["n"] for v in vals), succ))
+    if not r.require(len(arms) >= 3, "ares_llist_attach_at: insertion modes not found"):
+        return
+    # join block of the switch: where all arms meet again
+    for name, start in sorted(arms):
+        seen, work, els = set(), [start], []
+        while work:
+            x = work.pop()
+            if x in seen:
+                continue
+            seen.add(x)
+            blk = f.blocks[x]
+            els.extend(blk.els)
+            # stay inside the arm: stop at the block that tests list->tail == NULL (the common tail of the switch)
+            for s2 in blk.succs:
+                if s2 is None:
+                    continue
+                t = f.blocks[s2].term
+                if t and t.get("cond") is not None and "tail" in render(t["cond"]) and "NULL" in render(t["cond"]).replace("((void *)0)", "NULL") and not any(e2["k"] == "asg" for e2 in f.blocks[s2].els):
+                    continue
+                work.append(s2)
+        st = {}
+        for el in els:
+            if el["k"] == "asg" and el["e"]["op"] == "=":
+                st[render(strip(el["e"]["l"]))] = render(strip(el["e"].get("r")))
+        nxt, prv = st.get("%s->next" % node), st.get("%s->prev" % node)
+        k = "mode %s links both ways" % name
+        problems = []
+        if nxt is None or prv is None:
+            problems.append("node->next / node->prev not both set")
+        else:
+            if nxt not in ("NULL", "((void *)0)", "0"):
+                if st.get("%s->prev" % nxt) != node and st.get("(%s)->prev" % nxt) != node:
+                    problems.append("successor %s is not pointed back at the new node" % nxt)
+            if prv not in ("NULL", "((void *)0)", "0"):
+                if st.get("%s->next" % prv) != node and st.get("(%s)->next" % prv) != node and st.get("list->head") != node:
+                    problems.append("predecessor %s->next is not set to the new node" % prv)
+        if problems:
+            r.viol(k, f.name, f.loc(f.ln), "insertion mode %s: %s: forward and backward traversal disagree about the list contents" % (name, "; ".join(problems)))
+        else:
+            r.ok(k, f.loc(f.ln))
+
+
+def r_arrayoff(prog, R):
+    r = R.rule("R-C19-ARRAYOFF", "an array that drops elements from the front by advancing its offset rewinds the offset when it becomes empty (so it stays usable)", floor=1, analysis="must-pass-through after the count decrement")
+    n = 0
+    for f in sorted(prog.funcs.values(), key=lambda x: x.key):
+        if f.file != "src/lib/dsa/ares_array.c":
+            continue
+        adv = [(b, i, el) for b, i, el in f.elements() if el["k"] == "asg" and is_field(el["e"]["l"], "offset", "ares_array") and el["e"]["op"] in ("++", "+=")]
+        if not adv:
+            continue
+        n += 1
+        dec = [(b, i, el) for b, i, el in f.elements() if el["k"] == "asg" and is_field(el["e"]["l"], "cnt", "ares_array") and el["e"]["op"] in ("--", "-=")]
+        k = "fn=%s rewinds offset when empty" % f.name
+        if not dec:
+            r.viol(k, f.name, f.loc(adv[0][2]), "%s advances arr->offset without adjusting the count" % f.name)
+            continue
+        db, di, de = dec[0]
+        # after the decrement every path to the exit tests cnt == 0 and the true edge stores offset = 0
+        tests = [b for b in f.blocks.values() if b.term and b.term.get("cond") is not None and norm_cmp(b.term["cond"], True)[0] == "==" and is_field(norm_cmp(b.term["cond"], True)[1], "cnt", "ares_array") and const_val(norm_cmp(b.term["cond"], True)[2]) == 0]
+        okr = False
+        for tb in tests:
+            ts = f.blocks.get(tb.succs[0])
+            if ts is not None and any(e2["k"] == "asg" and is_field(e2["e"]["l"], "offset", "ares_array") and const_val(e2["e"].get("r")) == 0 for e2 in ts.els):
+                # the test cannot be bypassed after the decrement
+                def bar(e2, tb=tb):
+                    return False
+                seen, work, bypass = set(), [(db.id, di + 1)], False
+                while work:
+                    bid, st0 = work.pop()
+                    if bid == tb.id:
+                        continue
+                    if bid == f.exit:
+                        bypass = True
+                        break
+                    for s2 in f.blocks[bid].succs:
+                        if s2 is not None and s2 not in seen:
+                            seen.add(s2)
+                            work.append((s2, 0))
+                if not bypass:
+                    okr = True
+        if okr:
+            r.ok(k, f.loc(de))
+        else:
+            r.viol(k, f.name, f.loc(de), "%s removes from the front by advancing arr->offset and never rewinds it when the array becomes empty: after filling the array to its allocation and emptying it from the front, every later insert fails (ares_array_move with a source index equal to the allocation size)" % f.name)
+    r.require(n >= 1, "no function advancing arr->offset found")
+
+
 def run(prog, R, tier):
     R.assume("conformance of the containers to their abstract models under operation sequences is not decided here")
     r_sib(prog, R)
     r_claimdestroy(prog, R)
     r_reclaim(prog, R)
+    r_links(prog, R)
+    r_arrayoff(prog, R)
     files = {f.file for f in prog.funcs.values() if DSA(f)} | {"src/lib/str/ares_buf.c"}
     ownrules.own_rule(prog, R, "R-C19-OWN", files, floor=20, include_contract=True)
     C14.r_prealloc(prog, R, rid="R-C19-PREALLOC")
